@@ -52,9 +52,9 @@ def norm(m, width):
     return {(u(k, width) if isinstance(k, int) else k): v for k, v in m.items()}
 
 
-def encode(m, width, chooser=None, aug=None, prune=None, kinds_log=None):
+def encode(m, width, chooser=None, aug=None, prune=None, kinds_log=None, ret_extra=False):
     """root RC of Hashmap(width) for non-empty map m.  chooser(n, m, uniform) -> kind (default canonical).
-    aug = (leaf_extra(value)->int, combine(a,b)->int, extra_bits) for HashmapAug with uint extras.
+    aug = (leaf_extra(value)->extra, combine(a,b)->extra, enc) for HashmapAug: enc is a bit width (uint extras) or a callable extra -> bit string.
     prune(path_prefix, subtree RC) -> bool: replace that subtree by a level-1 pruned branch."""
     items = norm(m, width)
     assert items and all(len(k) == width for k in items)
@@ -74,7 +74,7 @@ def encode(m, width, chooser=None, aug=None, prune=None, kinds_log=None):
             extra = None
             if aug:
                 extra = aug[0](items[keys[0]])
-                bits += u(extra, aug[2])
+                bits += aug[2](extra) if callable(aug[2]) else u(extra, aug[2])
             cell = rc.RC(bits + vb, vr)
         else:
             left = {k[n + 1:]: v for k, v in items.items() if k[n] == '0'}
@@ -84,12 +84,18 @@ def encode(m, width, chooser=None, aug=None, prune=None, kinds_log=None):
             extra = None
             if aug:
                 extra = aug[1](le, re_)
-                bits += u(extra, aug[2])
+                bits += aug[2](extra) if callable(aug[2]) else u(extra, aug[2])
             cell = rc.RC(bits, [lc, rcell])
         if prune and path and prune(path, cell):
             return rc.make_pruned(cell, 1), extra
         return cell, extra
-    return build(items, width, '')[0]
+    root, root_extra = build(items, width, '')
+    return (root, root_extra) if ret_extra else root
+
+
+def encode_with_extra(m, width, aug, **kw):
+    """-> (root RC, root extra) for HashmapAugE wrappers that repeat the root extra next to the reference"""
+    return encode(m, width, aug=aug, ret_extra=True, **kw)
 
 
 class DictDecodeError(Exception):
